@@ -276,6 +276,10 @@ func (dec *Decoder) decodeMB(tokenBR *bitio.BoolReader) error {
 
 	if !skip {
 		dec.parseResiduals(mb, left, block, tokenBR)
+		// A macroblock whose parsed coefficients are all zero counts as
+		// skipped for the loop filter (RFC 6386 section 15; libwebp:
+		// skip = ParseResiduals(...)).
+		skip = block.NonZeroY == 0 && block.NonZeroUV == 0
 	} else {
 		left.Nz = 0
 		mb.Nz = 0
